@@ -208,6 +208,7 @@ fn run_client_cell(c: &Case, roots: Roots, domain: Domain, alpn: Alpn, assume_ht
     let (cend, send_, handle) = pipe(c.c2s.clone(), c.s2c.clone());
     let hits = Arc::new(AtomicUsize::new(0));
     let hits2 = hits.clone();
+    let c_rt_seed = c.rt_seed;
     let res = rt::run_virtual(c.rt_seed, Duration::from_secs(3600), async move {
         // raw TLS server
         let (cert, k) = if server_cert_other { SERVER_OTHER } else { SERVER_GOOD };
@@ -245,6 +246,10 @@ fn run_client_cell(c: &Case, roots: Roots, domain: Domain, alpn: Alpn, assume_ht
                 Ok(e) => e,
                 Err(e) => return (false, format!("tls_config: {e:?}")),
             };
+        }
+        // a connect timeout wraps the connector in another layer; TLS must still sit between it and the wire
+        if c_rt_seed % 5 < 2 {
+            ep = ep.connect_timeout(Duration::from_secs(30));
         }
         let connected = if lazy { Ok(ep.connect_with_connector_lazy(single_connector(cend))) } else { ep.connect_with_connector(single_connector(cend)).await };
         let r = match connected {
@@ -699,7 +704,11 @@ impl Prop for C15 {
         let mut v = vec![];
         for cell in all_cells() {
             v.push(Case { cell: cell.clone(), c2s: vec![], s2c: vec![], rt_seed: 1 });
-            v.push(Case { cell, c2s: vec![3], s2c: vec![0, 5, 1], rt_seed: 2 });
+            v.push(Case { cell: cell.clone(), c2s: vec![3], s2c: vec![0, 5, 1], rt_seed: 2 });
+            // rt_seed 15: lazily connected and with a connect timeout (both derived from the seed)
+            if matches!(cell, Cell::Client { .. }) {
+                v.push(Case { cell, c2s: vec![], s2c: vec![], rt_seed: 15 });
+            }
         }
         v
     }
